@@ -1192,3 +1192,19 @@ Proof.
     destruct (load_sem kstate do_seccomp do_prctl (strip_locks funs) lc _ d8_filt) as [w' r].
     cbn [snd]. destruct r; [discriminate|reflexivity|discriminate].
 Qed.
+
+(** ** 6. a reference Supported(): C10 and C11 do not speak about Supported, their theorems hold for histories
+    interleaved with ANY probe function that satisfies [supp_spec]; this one exists (non-vacuity) *)
+Definition ref_supported (w:kworld) : kworld * option bool :=
+  let t := thread_at kstate w 0 in
+  let fl := 1 mod 18446744073709551616 in
+  let b := do_seccomp (w_k w) t SECCOMP_SET_MODE_STRICT fl None in
+  ({| w_k := fst (fst b); w_cur := w_cur w; w_pins := w_pins w; w_sched := w_sched w; w_step := w_step w;
+      w_log := (t, SECCOMP_SET_MODE_STRICT, fl, None) :: w_log w |},
+   Some (negb (num_eqb (snd b) 0) && num_eqb (snd b) EINVAL)).
+
+Lemma ref_supported_spec : supp_spec kstate do_seccomp ref_supported.
+Proof.
+  intro w. exists 0%nat. cbv zeta. unfold ref_supported, same_goroutine. cbn [fst snd w_k w_log w_pins w_sched w_cur].
+  repeat split; reflexivity.
+Qed.
